@@ -177,6 +177,14 @@ def join(a, b, common, pred=None, prefer="l"):
     return Tab(out, a.cols | b.cols, False)
 
 
+def index_order(t):
+    """Give an unordered table the order of its slot indices (for count-only reasoning)."""
+    if t.ordered:
+        return t
+    ps = [s.p for s in t.slots]
+    return Tab([Slot(s.p, zsum(b2i(ps[j]) for j in range(i)), s.v) for i, s in enumerate(t.slots)], t.cols, True)
+
+
 def unordered(t):
     return Tab([Slot(s.p, None, s.v) for s in t.slots], t.cols, False)
 
